@@ -435,6 +435,26 @@ func (e *AST) pathText() string {
 			fmt.Fprintf(&b, "[%d]", f.I)
 		case "wild":
 			b.WriteString("[*]")
+		case "union":
+			parts := make([]string, len(f.U))
+			for i, u := range f.U {
+				if u.Is {
+					parts[i] = quote(bstr(u.K))
+				} else {
+					parts[i] = strconv.Itoa(u.I)
+				}
+			}
+			b.WriteString("[" + strings.Join(parts, ",") + "]")
+		case "slice":
+			parts := make([]string, len(f.S))
+			for i, v := range f.S {
+				parts[i] = strconv.Itoa(v)
+			}
+			b.WriteString("[" + strings.Join(parts, ":") + "]")
+		case "desc":
+			b.WriteString("..")
+		case "filter":
+			b.WriteString("[?(" + f.E.Text() + ")]")
 		default:
 			panic("pathText: unsupported fragment " + f.F)
 		}
